@@ -617,6 +617,12 @@ int tokens_get(AsmContext *asm_context, char *token, int len)
         }
       }
 
+      if (ptr >= len - 1)
+      {
+        print_error(asm_context, "Token too long");
+        exit(1);
+      }
+
       token[ptr++] = ch;
     }
   }
